@@ -390,6 +390,25 @@ template <class L> class LabeledFamily : public IAlgoFamily {
                     rec["allfromv"] = afv;
                 }
                 rec["withpaths"] = withPaths;
+                // the reconstruction helper with an explicit source other than the root of the
+                // predecessor table: a path when that source lies on the destination's chain,
+                // std::runtime_error otherwise (small graphs only: n^2 calls per record)
+                json recon = json::array();
+                if (n <= 6) {
+                    cg.cap = (size_t)-1;
+                    auto p1 = algorithms::findVertexPredecessors(cg, s);
+                    for (VertexIndex s2 = 0; s2 < n; ++s2)
+                        for (VertexIndex t = 0; t < n; ++t) {
+                            json res;
+                            try {
+                                res = seqJson(algorithms::findPathToVertexFromPredecessors(cg, s2, t, p1));
+                            } catch (const std::runtime_error &) {
+                                res = json::array({-2});
+                            }
+                            recon.push_back({s2, t, res});
+                        }
+                }
+                rec["recon"] = recon;
             } catch (const ScanCapExceeded &) {
                 return r.fail("search from " + std::to_string(s) + " exceeded " + std::to_string(64 * (n + E) + 64) +
                               " neighbourhood scans (V+E = " + std::to_string(n + E) + ")");
